@@ -8,6 +8,12 @@ Mirrors, function for function (paths relative to the provenance repository; the
 * `Keeper.ConvertDenomToHash`                            x/msgfees/keeper/keeper.go:181
 * `Keeper.CalculateAdditionalFeesToBePaid`               x/msgfees/keeper/keeper.go:198
 * `Keeper.DeductFeesDistributions`                       x/msgfees/keeper/keeper.go:141
+* `Keeper.SetMsgFee / RemoveMsgFee / AddMsgFee / UpdateMsgFee`, `DetermineBips`
+                                                         x/msgfees/keeper/keeper.go:78,103,250,278,306
+* `Keeper.UpdateConversionFeeDenomParam / UpdateNhashPerUsdMilParam`
+                                                         x/msgfees/keeper/params.go:55,62
+* msgfees `msgServer` governance methods                 x/msgfees/keeper/msg_server.go:49-113
+* gov `EndBlocker`: a passed proposal's messages in one cache context   x/gov/abci.go (forked SDK)
 * `EnsureSufficientFloorAndMsgFees`                      internal/antewrapper/msg_fees_decorator.go:90
 * `MsgFeesDecorator.AnteHandle`                          internal/antewrapper/msg_fees_decorator.go:50
 * `TxGasLimitDecorator.AnteHandle`                       internal/antewrapper/tx_gas_limit_decorator.go:39
@@ -122,6 +128,107 @@ def convertDenomToHash (cfg : Cfg) (c : Coin) : Except Err Coin :=
 
 def lookupFee (cfg : Cfg) (typ : String) : Option MsgFee :=
   (cfg.sched.find? (·.1 = typ)).map (·.2)
+
+/-! ### Governance: how the configuration changes while the chain runs
+
+The floor gas price is written at genesis (or by an upgrade handler); NO message changes it.
+Everything else is changed by the five governance messages of x/msgfees, executed by the gov
+module's EndBlocker when a proposal passes (forked SDK x/gov/abci.go: all messages of a proposal
+run in ONE cache context that is written only when every message succeeded). -/
+
+/-- One governance message of x/msgfees (x/msgfees/keeper/msg_server.go).  The `Authority` field is
+always the gov module account here (gov refuses to submit a proposal whose messages it cannot
+sign).  `bips = none` is the empty `RecipientBasisPoints` string. -/
+inductive GovMsg where
+  | rate (n : Nat)                                                       -- MsgUpdateNhashPerUsdMilProposalRequest
+  | denom (d : Denom)                                                    -- MsgUpdateConversionFeeDenomProposalRequest
+  | add (typ : String) (fee : Coin) (recipient : Addr) (bips : Option Nat)   -- MsgAddMsgFeeProposalRequest
+  | upd (typ : String) (fee : Coin) (recipient : Addr) (bips : Option Nat)   -- MsgUpdateMsgFeeProposalRequest
+  | rm (typ : String)                                                    -- MsgRemoveMsgFeeProposalRequest
+  deriving Repr
+
+inductive GovErr where
+  | emptyType   -- ErrEmptyMsgType
+  | exists_     -- ErrMsgFeeAlreadyExists
+  | notfound    -- ErrMsgFeeDoesNotExist
+  | bips        -- ErrInvalidBipsValue
+  deriving DecidableEq, Repr
+
+/-- `DetermineBips` (keeper.go:306): basis points only mean something with a recipient; a recipient
+without basis points gets `DefaultMsgFeeBips = 5000`. -/
+def determineBips (recipient : Addr) (bips : Option Nat) : Except GovErr Nat :=
+  if recipient = "" then .ok 0
+  else match bips with
+    | some b => if b > 10000 then .error .bips else .ok b
+    | none => .ok 5000
+
+/-- `Keeper.SetMsgFee` (keeper.go:78): one record per message type, overwritten in place. -/
+def setMsgFee (sched : List (String × MsgFee)) (typ : String) (f : MsgFee) : List (String × MsgFee) :=
+  if sched.any (·.1 = typ) then sched.map fun e => if e.1 = typ then (typ, f) else e
+  else sched ++ [(typ, f)]
+
+/-- `Keeper.AddMsgFee` (keeper.go:250). -/
+def addMsgFee (cfg : Cfg) (typ : String) (fee : Coin) (recipient : Addr) (bips : Option Nat) : Except GovErr Cfg :=
+  if typ = "" then .error .emptyType
+  else match lookupFee cfg typ with
+    | some _ => .error .exists_
+    | none =>
+      match determineBips recipient bips with
+      | .error e => .error e
+      | .ok b => .ok { cfg with sched := setMsgFee cfg.sched typ ⟨fee, recipient, b⟩ }
+
+/-- `Keeper.UpdateMsgFee` (keeper.go:278). -/
+def updateMsgFee (cfg : Cfg) (typ : String) (fee : Coin) (recipient : Addr) (bips : Option Nat) : Except GovErr Cfg :=
+  if typ = "" then .error .emptyType
+  else match lookupFee cfg typ with
+    | none => .error .notfound
+    | some _ =>
+      match determineBips recipient bips with
+      | .error e => .error e
+      | .ok b => .ok { cfg with sched := setMsgFee cfg.sched typ ⟨fee, recipient, b⟩ }
+
+/-- `Keeper.RemoveMsgFee` (keeper.go:103). -/
+def removeMsgFee (cfg : Cfg) (typ : String) : Except GovErr Cfg :=
+  match lookupFee cfg typ with
+  | none => .error .notfound
+  | some _ => .ok { cfg with sched := cfg.sched.filter (·.1 ≠ typ) }
+
+/-- `Keeper.UpdateNhashPerUsdMilParam` (params.go:62): read the stored params, set ONE field, write. -/
+def updateNhashPerUsdMilParam (cfg : Cfg) (n : Nat) : Cfg := { cfg with nhashPerUsdMil := n }
+
+/-- `Keeper.UpdateConversionFeeDenomParam` (params.go:55): read the stored params, set ONE field, write. -/
+def updateConversionFeeDenomParam (cfg : Cfg) (d : Denom) : Cfg := { cfg with convDenom := d }
+
+/-- The msgfees `msgServer` methods (msg_server.go:49-113), authority check passed. -/
+def govHandle (cfg : Cfg) : GovMsg → Except GovErr Cfg
+  | .rate n => .ok (updateNhashPerUsdMilParam cfg n)
+  | .denom d => .ok (updateConversionFeeDenomParam cfg d)
+  | .add t f r b => addMsgFee cfg t f r b
+  | .upd t f r b => updateMsgFee cfg t f r b
+  | .rm t => removeMsgFee cfg t
+
+/-- The messages of one proposal, in order, in the proposal's cache context. -/
+def execProposal (cfg : Cfg) : List GovMsg → Except GovErr Cfg
+  | [] => .ok cfg
+  | m :: ms =>
+    match govHandle cfg m with
+    | .error e => .error e
+    | .ok c => execProposal c ms
+
+/-- gov `EndBlocker` for a proposal that won the vote: the cache context is written only when every
+message succeeded (`true` = PASSED, `false` = FAILED, nothing changed). -/
+def passProposal (cfg : Cfg) (p : List GovMsg) : Cfg × Bool :=
+  match execProposal cfg p with
+  | .ok c => (c, true)
+  | .error _ => (cfg, false)
+
+/-- A sequence of proposals, oldest first: the resulting configuration and each proposal's fate. -/
+def applyGov (cfg : Cfg) : List (List GovMsg) → Cfg × List Bool
+  | [] => (cfg, [])
+  | p :: ps =>
+    let (c, ok) := passProposal cfg p
+    let (c', oks) := applyGov c ps
+    (c', ok :: oks)
 
 /-- The schedule half of one loop iteration of `CalculateAdditionalFeesToBePaid` (keeper.go:204-215). -/
 def schedPart (cfg : Cfg) (d : Dist) (m : RMsg) : Except Err Dist :=
